@@ -475,7 +475,8 @@ func (v *env) runCase(line string) {
 				v.violation("gc-removed:"+kind, fmt.Sprintf("allocated-IP dir: file %q (content %q) was removed although its container is not dead (%s)", e.N, e.C, kind), line)
 			}
 			if !removed && expectRemoved {
-				v.violation("gc-dead-not-removed:"+string(b), fmt.Sprintf("allocated-IP dir: file %q of dead container %q (%s) survived a GC round", e.N, cidOf(e.C), b), line)
+				v.violation(c.deadLeftSig(true, i, e.N, b), fmt.Sprintf("allocated-IP dir %d: file %q of dead container %q (%s) survived a GC round%s", i, e.N, cidOf(e.C), b,
+					c.behindNote(true, i, e.N)), line)
 			}
 		}
 	}
@@ -518,7 +519,8 @@ func (v *env) runCase(line string) {
 				v.violation(fmt.Sprintf("gc-removed:container-%s-%s", cls, b), fmt.Sprintf("gc_dirs: state file %q was removed although its container is not dead (%s)", e.N, b), line)
 			}
 			if !removed && cls == "dead" {
-				v.violation("gc-dead-not-removed:"+string(b), fmt.Sprintf("gc_dirs: state file %q of dead container (%s) survived a GC round", e.N, b), line)
+				v.violation(c.deadLeftSig(false, i, e.N, b), fmt.Sprintf("gc_dirs %d: state file %q of dead container (%s) survived a GC round%s", i, e.N, b,
+					c.behindNote(false, i, e.N)), line)
 			}
 		}
 		wantCB = append(wantCB, dirCB...)
@@ -542,6 +544,7 @@ func (v *env) runCase(line string) {
 			v.r.Hit("callback-failed-file-removed-anyway")
 		}
 	}
+	c.placementHist(v.r)
 	v.r.Case(line, removedAny && keptFile)
 	if len(v.r.Samples) < 3 && removedAny && keptFile {
 		v.r.Sample(map[string]interface{}{"mode": c.Mode, "containers": c.Containers, "callbacks": round1CB})
@@ -558,10 +561,192 @@ func (v *env) runCase(line string) {
 		v.violation("gc-round-"+strings.SplitN(out, ":", 2)[0], "second GC round: "+out, line)
 		return
 	}
+	// "eventually all of it": after the second round, too, no dead container's file may be left in ANY directory,
+	// wherever entries with a persistently failing inspect call sort
+	for _, ip := range []bool{true, false} {
+		specs, paths := c.GCDirs, gcDirs
+		if ip {
+			specs, paths = c.IPDirs, ipDirs
+		}
+		for i, d := range specs {
+			if d.Missing {
+				continue
+			}
+			for _, e := range d.E {
+				if !c.isDeadFile(ip, e) {
+					continue
+				}
+				if _, err := os.Lstat(filepath.Join(paths[i], e.N)); err == nil {
+					v.violation(c.deadLeftSig(ip, i, e.N, c.fileBehaviour(ip, e)), fmt.Sprintf("file %q of a dead container is still there after TWO GC rounds%s", e.N, c.behindNote(ip, i, e.N)), line)
+				}
+			}
+		}
+	}
 	after := snapshot(append(append([]string(nil), ipDirs...), gcDirs...))
 	if before != after || len(callbacks) != 0 {
 		v.violation("gc-second-round-not-idle", fmt.Sprintf("second round under the same runtime answers changed the directories or called back %v", callbacks), line)
 	}
+}
+
+// erroring: the inspect call for this behaviour fails with something other than not-found (persistently: the fakes
+// answer the same on every call).
+func erroring(b fk.Behaviour, cri bool) bool {
+	if cri {
+		return b == "unavailable" || b == "internal" || b == "unknowncode"
+	}
+	return b == "err500" || b == "garbage" || b == "reset"
+}
+
+// fileBehaviour: the runtime behaviour that decides about this regular file ("" = the collector never asks).
+func (c *gcCase) fileBehaviour(ip bool, e entry) fk.Behaviour {
+	if e.K != "f" {
+		return ""
+	}
+	if !ip {
+		return c.behaviour(e.N)
+	}
+	if net.ParseIP(e.N) == nil || len(e.C) == 0 {
+		return ""
+	}
+	return c.behaviour(cidOf(e.C))
+}
+
+func (c *gcCase) isDeadFile(ip bool, e entry) bool {
+	b := c.fileBehaviour(ip, e)
+	return b != "" && b.Class(c.cri()) == "dead"
+}
+
+// behind: an entry whose inspect call fails sorts before `name` in directory i (ReadDir order = sorted names), or
+// sits in an earlier directory of the same list.  where = "" | "same-dir" | "earlier-dir".
+func (c *gcCase) behind(ip bool, i int, name string) string {
+	specs := c.GCDirs
+	if ip {
+		specs = c.IPDirs
+	}
+	for j := 0; j <= i && j < len(specs); j++ {
+		if specs[j].Missing {
+			continue
+		}
+		for _, e := range specs[j].E {
+			b := c.fileBehaviour(ip, e)
+			if b == "" || !erroring(b, c.cri()) {
+				continue
+			}
+			if j < i {
+				return "earlier-dir"
+			}
+			if e.N < name {
+				return "same-dir"
+			}
+		}
+	}
+	return ""
+}
+
+func (c *gcCase) deadLeftSig(ip bool, i int, name string, b fk.Behaviour) string {
+	if c.behind(ip, i, name) != "" {
+		return "gc-dead-not-removed-behind-erroring-entry"
+	}
+	return "gc-dead-not-removed:" + string(b)
+}
+
+func (c *gcCase) behindNote(ip bool, i int, name string) string {
+	switch c.behind(ip, i, name) {
+	case "same-dir":
+		return " — an entry whose inspect call fails sorts before it in the same directory"
+	case "earlier-dir":
+		return " — an entry whose inspect call fails sits in an earlier directory of the list"
+	}
+	return ""
+}
+
+// placementHist: how dead containers' files sit relative to entries with a failing inspect call.
+func (c *gcCase) placementHist(r *hx.Report) {
+	for _, ip := range []bool{true, false} {
+		specs := c.GCDirs
+		kind := "gcdirs"
+		if ip {
+			specs, kind = c.IPDirs, "ipdirs"
+		}
+		for i, d := range specs {
+			if d.Missing {
+				continue
+			}
+			for _, e := range d.E {
+				if !c.isDeadFile(ip, e) {
+					continue
+				}
+				switch c.behind(ip, i, e.N) {
+				case "same-dir":
+					r.Hit("placement:" + kind + ":dead-file-after-erroring-entry-same-dir")
+				case "earlier-dir":
+					r.Hit("placement:" + kind + ":dead-file-after-erroring-entry-earlier-dir")
+				default:
+					r.Hit("placement:" + kind + ":dead-file-not-behind-erroring-entry")
+				}
+			}
+		}
+	}
+}
+
+// genBehindErr: the liveness clause under partial runtime failure — ids are made to sort err < dead < err < dead < err
+// (and alive ones in between), over several directories; variant "first-dir-only": the failing entries are all in
+// the first directory of each list, the dead containers' files in the later ones.
+func genBehindErr(rng *rand.Rand, mode string) *gcCase {
+	cri := mode == "cri"
+	c := &gcCase{Mode: mode, Containers: map[string]fk.Behaviour{}}
+	var errB, deadB, aliveB []fk.Behaviour
+	all := fk.DockerBehaviours
+	if cri {
+		all = fk.CriBehaviours
+	}
+	for _, b := range all {
+		switch {
+		case erroring(b, cri):
+			errB = append(errB, b)
+		case b.Class(cri) == "dead":
+			deadB = append(deadB, b)
+		case b.Class(cri) == "alive":
+			aliveB = append(aliveB, b)
+		}
+	}
+	// slots in sorted order: a0 err, a1 dead, a2 alive, a3 err, a4 dead, a5 alive, a6 err, a7 dead, a8 err
+	roles := []string{"err", "dead", "alive", "err", "dead", "alive", "err", "dead", "err"}
+	var ids []string
+	for i, role := range roles {
+		id := fmt.Sprintf("a%d%s", i, genID(rng)[:8])
+		ids = append(ids, id)
+		switch role {
+		case "err":
+			c.Containers[id] = errB[rng.Intn(len(errB))]
+		case "dead":
+			c.Containers[id] = deadB[rng.Intn(len(deadB))]
+		default:
+			c.Containers[id] = aliveB[rng.Intn(len(aliveB))]
+		}
+	}
+	firstDirOnly := rng.Intn(3) == 0
+	ndirs := 2 + rng.Intn(2)
+	for d := 0; d < ndirs; d++ {
+		ipd, gcd := dirSpec{}, dirSpec{}
+		for i, id := range ids {
+			role := roles[i]
+			if firstDirOnly && ((d == 0) != (role == "err")) && role != "alive" {
+				continue // first directory: only failing (and alive) entries; later ones: only dead (and alive)
+			}
+			if !firstDirOnly && rng.Intn(4) == 0 && !(d == 0 && i < 2) {
+				continue
+			}
+			// allocated-IP dir: names 10.<d>.0.<i> sort like the slots (single digits)
+			ipd.E = append(ipd.E, entry{N: fmt.Sprintf("10.%d.0.%d", d, i), K: "f", C: genContent(rng, id)})
+			gcd.E = append(gcd.E, entry{N: id, K: "f", C: `{"galaxy-flannel":{}}`})
+		}
+		rng.Shuffle(len(ipd.E), func(a, b int) { ipd.E[a], ipd.E[b] = ipd.E[b], ipd.E[a] })
+		rng.Shuffle(len(gcd.E), func(a, b int) { gcd.E[a], gcd.E[b] = gcd.E[b], gcd.E[a] })
+		c.IPDirs = append(c.IPDirs, ipd)
+		c.GCDirs = append(c.GCDirs, gcd)
+	}
+	return c
 }
 
 func snapshot(dirs []string) string {
@@ -751,10 +936,23 @@ func run(e *hx.Env) *hx.Report {
 	}
 	v.flush()
 
-	// decision table, every behaviour once, through the real shouldCleanup
+	// decision table, every behaviour once, through a one-file sweep of the real collector
 	v.decisionTable()
 
 	rng := e.Rng
+	// the liveness clause under PARTIAL runtime failure: dead containers' files behind / between / in later
+	// directories than entries whose inspect call keeps failing
+	for i, n := 0, e.N(60, 1500); i < n; i++ {
+		mode := "docker"
+		if i%2 == 1 && v.criIf != nil {
+			mode = "cri"
+		}
+		c := genBehindErr(rng, mode)
+		b, _ := json.Marshal(c)
+		v.r.Hit("stream:behind-erroring-entry:" + mode)
+		v.runCase("case " + string(b))
+	}
+	v.flush()
 	for i, n := 0, e.N(400, 12000); i < n; i++ {
 		mode := "docker"
 		switch {
@@ -774,36 +972,40 @@ func run(e *hx.Env) *hx.Report {
 	return r
 }
 
-// decisionTable: shouldCleanup itself for every scripted behaviour vs the model's `decide`.
+// decisionTable: the decision for every scripted behaviour, observed through a one-file gc_dirs sweep (the file is
+// named after the container: removed = the collector decided "clean up"), vs the model's `decide`.
 func (v *env) decisionTable() {
 	run := func(mode string, behs []fk.Behaviour) {
-		tbl := map[string]fk.Behaviour{}
-		for i, b := range behs {
-			tbl[fmt.Sprintf("id%02d", i)] = b
-		}
-		c := gcCase{Mode: mode, Containers: tbl}
-		var g interface{ VerifShouldCleanup(string) bool }
-		switch mode {
-		case "docker":
-			v.fd.Set(tbl)
-			os.Unsetenv("CONTAINERD_HOST")
-			g = realgc.VerifNewFlannelGC(nil, v.dockerIf, nil, nil, nil)
-		case "cri":
-			if v.criIf == nil {
-				return
-			}
-			v.fc.Set(tbl)
-			os.Setenv("CONTAINERD_HOST", "unix://"+v.fc.Socket)
-			defer os.Unsetenv("CONTAINERD_HOST")
-			g = realgc.VerifNewFlannelGC(v.kube(&c), v.criIf, nil, nil, nil)
+		if mode == "cri" && v.criIf == nil {
+			return
 		}
 		for i, b := range behs {
 			id := fmt.Sprintf("id%02d", i)
-			var got bool
-			out := hx.Guard(60*time.Second, func() { got = g.VerifShouldCleanup(id) })
-			caseLine := fmt.Sprintf("# decision table: mode=%s behaviour=%s", mode, b)
+			c := gcCase{Mode: mode, Containers: map[string]fk.Behaviour{id: b}, GCDirs: []dirSpec{{E: []entry{{N: id, K: "f", C: "{}"}}}}}
+			js, _ := json.Marshal(c)
+			caseLine := "case " + string(js)
+			dir := filepath.Join(v.work, fmt.Sprintf("decide-%s-%d", mode, i))
+			if err := populate(dir, c.GCDirs[0]); err != nil {
+				v.r.Hit("populate-error")
+				continue
+			}
+			var g interface{ VerifCleanupGCDirsOnce() error }
+			if mode == "docker" {
+				v.fd.Set(c.Containers)
+				os.Unsetenv("CONTAINERD_HOST")
+				g = realgc.VerifNewFlannelGC(nil, v.dockerIf, nil, []string{dir}, func(string) error { return nil })
+			} else {
+				v.fc.Set(c.Containers)
+				os.Setenv("CONTAINERD_HOST", "unix://"+v.fc.Socket)
+				g = realgc.VerifNewFlannelGC(v.kube(&c), v.criIf, nil, []string{dir}, func(string) error { return nil })
+			}
+			out := hx.Guard(60*time.Second, func() { g.VerifCleanupGCDirsOnce() })
+			os.Unsetenv("CONTAINERD_HOST")
+			_, statErr := os.Lstat(filepath.Join(dir, id))
+			got := statErr != nil
+			os.RemoveAll(dir)
 			if out != "ok" {
-				v.violation("gc-should-cleanup-"+strings.SplitN(out, ":", 2)[0], string(b)+": "+out, caseLine)
+				v.violation("gc-round-"+strings.SplitN(out, ":", 2)[0], string(b)+": "+out, caseLine)
 				continue
 			}
 			v.r.Hit("decide:" + mode + ":" + string(b))
@@ -811,10 +1013,10 @@ func (v *env) decisionTable() {
 			v.expect("decide", caseLine, "decide "+b.Token(mode == "cri"), fmt.Sprint(got))
 			cls := b.Class(mode == "cri")
 			if got && cls != "dead" {
-				v.violation(fmt.Sprintf("gc-should-cleanup-true-for:%s-%s", cls, b), fmt.Sprintf("shouldCleanup answered true for behaviour %s (%s)", b, cls), caseLine)
+				v.violation(fmt.Sprintf("gc-removed:container-%s-%s", cls, b), fmt.Sprintf("the collector removed the state file of a container with behaviour %s (%s)", b, cls), caseLine)
 			}
 			if !got && cls == "dead" {
-				v.violation("gc-dead-not-removed:"+string(b), fmt.Sprintf("shouldCleanup answered false for a dead container (%s)", b), caseLine)
+				v.violation("gc-dead-not-removed:"+string(b), fmt.Sprintf("the collector kept the state file of a dead container (%s)", b), caseLine)
 			}
 		}
 	}
